@@ -168,7 +168,7 @@ func coarseSite(fn, kind string) string {
 // log) while requests of other goroutines were in flight, and the listed outcomes must have occurred
 var c20Families = []string{
 	"authorize", "callback", "callback-shared", // interactive authorization, multi-step policies, shared sessions
-	"par", "par-unregistered-redirect", "request_uri-shared", "authorize-foreign-request_uri",
+	"par", "par-unregistered-redirect", "request_uri-shared", "request_uri-burst", "authorize-foreign-request_uri",
 	"code", "code-replay", // redemption AND replay
 	"refresh-rotation", "refresh-no-rotation",
 	"introspect", "userinfo", "revoke",
@@ -178,7 +178,7 @@ var c20Families = []string{
 }
 var c20Outcomes = []string{
 	"authorize:code:steps=1", "authorize:code:steps=2", "authorize:code:steps=3", "authorize:redirected-access_denied", "authorize:in-progress",
-	"callback-shared:in-progress", "request_uri-shared:in-progress",
+	"callback-shared:in-progress", "request_uri-shared:in-progress", "request_uri-burst:several-in-the-window",
 	"code:ok", "code-replay:invalid_grant", "par:ok", "par-unregistered-redirect:ok",
 	"refresh-rotation:ok", "refresh-no-rotation:ok", "introspect:active", "introspect:inactive", "userinfo:200", "revoke:200",
 	"ciba-poll:ok", "ciba-poll:authorization_pending", "ciba-poll:access_denied", "ciba-push-success:ok", "ciba-push-failure:ok", "ciba-ping:ok",
@@ -302,7 +302,17 @@ func c20Drive(ctx *RunCtx) {
 				Replay: map[string]any{"output": truncate(string(out), 6000), "workload": "verifharness_race c20work -tier " + ctx.Tier + " -seed " + fmt.Sprint(seed)}})
 			break
 		}
-		sig := "unsynchronised-write:" + fn
+		// the same object-class qualifier as for race reports, read off the stack of the goroutine that crashed (the first
+		// one printed): a writer of sessions below internal/authorize.initAuth
+		crashStack := string(out)
+		if i := strings.Index(crashStack, "[running]:"); i >= 0 {
+			crashStack = crashStack[i:]
+			if j := strings.Index(crashStack, "\n\n"); j >= 0 {
+				crashStack = crashStack[:j]
+			}
+		}
+		qual := c20Qualify(raceAccess{Kind: "write", Func: fn, InitAuth: strings.Contains(crashStack, "internal/authorize.initAuth("), Cold: strings.Contains(crashStack, "main.c20Cold")})
+		sig := "unsynchronised-write:" + fn + qual
 		if fn == "" || strings.HasPrefix(fn, "internal/storage.") {
 			sig = "runtime-abort:" + crashed + ":" + fn
 		}
